@@ -761,10 +761,14 @@ Fixpoint pair_fields (toks : list tok) : list cfield :=
   | _ => []
   end.
 
+(* the tokens after the LAST `CONFIG` token (the printer puts the config section last; an address inside a migration
+   tag may itself be the string CONFIG) *)
 Fixpoint after_config (toks : list tok) : list tok :=
   match toks with
   | [] => []
-  | t :: r => if bytes_eqb t kw_CONFIG then r else after_config r
+  | t :: r =>
+    if bytes_eqb t kw_CONFIG then (if existsb (bytes_eqb kw_CONFIG) r then after_config r else r)
+    else after_config r
   end.
 
 (* the order in which a vector lists the config fields *)
